@@ -217,7 +217,10 @@ class Karr:
             return self.len_form(e.args[1])
         if isinstance(e, ast.BinOp) and isinstance(e.op, (ast.Mult, ast.Add, ast.Sub, ast.Div)):
             a, b = self.array_rank(e.left, st), self.array_rank(e.right, st)
-            if a is not None and b is not None and isinstance(e.left, ast.Call) and isinstance(e.right, ast.Call) and call_name(e.left) == "reshape" and call_name(e.right) == "reshape":
+            def is_reshape(x):
+                return (isinstance(x, ast.Call) and call_name(x) == "reshape") or (isinstance(x, ast.Name) and x.id in getattr(self, "reshaped", set()))
+
+            if a is not None and b is not None and is_reshape(e.left) and is_reshape(e.right):
                 diff = v_add(a, b, -1)
                 ok = st.holds(diff)
                 self.asserts.append((e, diff, ok, st.copy()))
@@ -255,6 +258,10 @@ class Karr:
                         k = "array"
                     elif isinstance(val, ast.BinOp) and any(isinstance(x, ast.Call) and call_name(x) == "reshape" for x in ast.walk(val)):
                         k = "array"
+                    elif isinstance(val, ast.Call) and call_name(val) == "reshape":
+                        k = "array"  # lhs = reshape(a, s1)
+                    elif isinstance(val, ast.BinOp) and isinstance(val.left, ast.Name) and isinstance(val.right, ast.Name) and self.kinds.get(val.left.id) == "array" and self.kinds.get(val.right.id) == "array":
+                        k = "array"  # res = lhs * rhs
                     if k is not None and self.kinds.get(t) != k:
                         self.kinds[t] = k
                         changed = True
@@ -273,6 +280,11 @@ class Karr:
                     st.assign("len:" + t, self.len_form(val))
                 elif k == "array":
                     st.assign("rank:" + t, self.array_rank(val, st))
+                    # a name given the result of a reshape stands for that reshape in a later product
+                    if isinstance(val, ast.Call) and call_name(val) == "reshape":
+                        self.reshaped = getattr(self, "reshaped", set()) | {t}
+                    else:
+                        self.reshaped = getattr(self, "reshaped", set()) - {t}
                 else:
                     self.array_rank(val, st)
             elif isinstance(s, ast.AugAssign) and isinstance(s.target, ast.Name):
